@@ -34,6 +34,14 @@ def app(environ, start_response):
     args = dict(kv.split("=", 1) for kv in q.split("&") if "=" in kv)
     d = float(args.get("d", "0"))
     w = float(args.get("w", "0"))
+    if d or w:
+        # tell the harness that the application has been entered for this request (a phase it waits for instead of guessing)
+        sd = os.environ.get("GV_STARTED_DIR")
+        if sd:
+            try:
+                open(os.path.join(sd, "started-%d-%d" % (os.getpid(), time.monotonic_ns())), "w").close()
+            except OSError:
+                pass
     if d:
         time.sleep(d)
     ident = ("pid=%d;ppid=%d;marker=%s;" % (os.getpid(), os.getppid(), os.environ.get("GV_MARKER", "-"))).encode()
@@ -95,6 +103,9 @@ class Server:
             threads = 1                 # (threads > 1 silently turns the sync class into gthread)
         self.settings = {"workers": workers, "graceful_timeout": graceful, "worker_class": worker_class, "threads": threads,
                          "keepalive": keepalive, "timeout": timeout, "raw_env": ["GV_MARKER=%s" % marker]}
+        self.started_dir = os.path.join(self.dir, "started")
+        os.mkdir(self.started_dir)
+        os.chmod(self.started_dir, 0o1777)
         if extra:
             self.settings.update(extra)
         self.daemon = daemon
@@ -115,8 +126,26 @@ class Server:
             fh.write(app_prelude + APP_SRC.replace('os.environ.get("GV_MARKER", "-")', 'os.environ.get("GV_MARKER", "-") + "-app2"'))
         self.write_conf()
 
+    def n_started(self):
+        """how many long requests have entered the application so far"""
+        try:
+            return len(os.listdir(self.started_dir))
+        except OSError:
+            return 0
+
+    def wait_started(self, n, wait=8.0):
+        t0 = time.time()
+        while time.time() - t0 < wait:
+            if self.n_started() >= n:
+                return True
+            time.sleep(0.02)
+        return False
+
     def write_conf(self, **changes):
         self.settings.update(changes)
+        # (the application learns where to report that it was entered)
+        env = [e for e in self.settings.get("raw_env", []) if not e.startswith("GV_STARTED_DIR=")]
+        self.settings["raw_env"] = env + ["GV_STARTED_DIR=%s" % self.started_dir]
         with open(self.conf + ".tmp", "w") as fh:
             for k, v in self.settings.items():
                 fh.write("%s = %r\n" % (k, v))
